@@ -85,6 +85,35 @@ type aStep struct {
 	Par     [][]aStep           `json:"par"`
 	Conf    *aConf              `json:"conf"`
 	Full    bool                `json:"full"`
+	Mid     []aStep             `json:"mid"`   // executed after Split bytes of the body have been read by the handler
+	Split   int                 `json:"split"`
+}
+
+// splitReader delivers data[:split], then runs fn (other requests, while the handler
+// of this request is waiting for more body), then delivers the rest.
+type splitReader struct {
+	data  []byte
+	split int
+	pos   int
+	fired bool
+	fn    func()
+}
+
+func (s *splitReader) Read(p []byte) (int, error) {
+	if s.pos >= s.split && !s.fired {
+		s.fired = true
+		s.fn()
+	}
+	if s.pos >= len(s.data) {
+		return 0, io.EOF
+	}
+	end := len(s.data)
+	if s.pos < s.split {
+		end = s.split
+	}
+	n := copy(p, s.data[s.pos:end])
+	s.pos += n
+	return n, nil
 }
 
 type aCase struct {
@@ -427,6 +456,19 @@ func (e *aEnv) doHTTP(st aStep, idx int) (res aRes) {
 		}
 	} else {
 		req.Body = io.NopCloser(bytes.NewReader(body))
+		if len(st.Mid) > 0 {
+			sp := st.Split
+			if sp > len(body) {
+				sp = len(body)
+			}
+			req.Body = io.NopCloser(&splitReader{data: body, split: sp, fn: func() {
+				mids := []aRes{}
+				for _, m := range st.Mid {
+					mids = append(mids, e.step(m, -1))
+				}
+				res.Par = [][]aRes{mids}
+			}})
+		}
 		if st.Unknown {
 			req.ContentLength = -1
 		} else {
